@@ -546,6 +546,18 @@ def check_chain(prog: Program, res: Result) -> None:
                 while isinstance(inner, ast.Call) and isinstance(inner.func, ast.Name) and inner.func.id in ("int", "round") and inner.args:
                     kinds.append(inner.func.id)
                     inner = inner.args[0]
+                # a width derived from ANOTHER (already truncated) width - int(prev_filters * filters_rate) - differs from the closed
+                # form int(filters * filters_rate**k) its neighbours use whenever the product has a fractional part
+                if isinstance(inner, ast.BinOp) and isinstance(inner.op, (ast.Mult, ast.Div)):
+                    sides = [inner.left, inner.right]
+                    rate = [x for x in sides if "filters_rate" in norm(x) and not any(isinstance(y, ast.BinOp) and isinstance(y.op, ast.Pow) for y in ast.walk(x))]
+                    other = [x for x in sides if x not in rate]
+                    if len(rate) == 1 and len(other) == 1 and isinstance(other[0], (ast.Name, ast.Attribute)) and "filters" in norm(other[0]) \
+                            and norm(other[0]) not in ("filters", "self.filters") and "rate" not in norm(other[0]):
+                        res.touch(fi)
+                        res.ob(R, False, fi.qualname, f"width in closed form: {short(c, 50)}",
+                               f"`{short(c, 70)}` derives a width from the truncated width `{norm(other[0])}`: for a non-integral filters_rate it differs by one channel from the closed "
+                               "form int(filters * filters_rate**k) that the connected layer uses, and the forward pass raises", f"{fi.module.relpath}:{c.lineno}")
                 is_width = isinstance(inner, ast.BinOp) and isinstance(inner.op, ast.Mult) and any(isinstance(x, ast.BinOp) and isinstance(x.op, ast.Pow) and "filters_rate" in norm(x.left) for x in ast.walk(inner)) \
                     and "filters" in norm(inner.left if not isinstance(inner.left, ast.BinOp) else inner.right)
                 if not is_width:
